@@ -393,7 +393,7 @@ def _same_obj(a, b):
 
 
 def _eq(ex, st, a: V, b: V):
-    hook = getattr(ex, "eq_values", None)     # pack-local executors with their own value kinds
+    hook = getattr(ex, "eq_values", None) or getattr(ex, "eq_hook", None)   # pack-local executors with their own value kinds
     if hook is not None:
         r = hook(st, a, b)
         if r is not None:
